@@ -572,3 +572,147 @@ authenticate = Contract(
 del authenticate.calls['AuthenticationError']
 authenticate.equal_model = _auth_equal
 CONTRACTS_AUTH = [authenticate]
+
+
+# ---- IMAPConnection._interrupt / read_command: literals that need a continuation (C06 / C18)
+#
+# Commands.parse raises ParsingInterrupt when a {n} literal needs the rest of the command from the client (its contract
+# is in contracts/total.py: nothing else escapes it).  Decided here: _interrupt writes exactly one continuation request
+# and then reads exactly the announced number of bytes, which it appends to the continuations; anything else it was asked
+# for is a TypeError.  read_command parses the SAME line again with all continuations read so far (one more per round) and
+# returns the command of the first parse that completes; it writes nothing but the continuation requests.
+from pymap.parsing.state import ParsingInterrupt  # noqa: E402
+from pymap.parsing.state import ExpectContinuation  # noqa: E402
+
+ExpectedS = RefS('Expected', ekind=INT, message=BytesS, literal_length=INT)      # ekind 1: ExpectContinuation
+InterruptS = RefS('Interrupt', expected=ExpectedS)
+ViewS = RefS('MemoryView')
+
+
+def _expected_isinstance(ex, ref, classes):
+    if list(classes) == [ExpectContinuation]:
+        return VBool(ex.st.heap_get(ref, 'ekind').t == 1)
+    raise Unsupported(f'isinstance(expected, {classes})')
+
+
+ExpectedS.isinstance_hook = _expected_isinstance
+
+
+def _int_ghost(st, sc):
+    st.ghost['written'] = VInt(z3.IntVal(0))
+    st.ghost['read'] = VInt(z3.IntVal(0))
+    st.ghost['read_len'] = VInt(z3.IntVal(-1))
+    st.ghost['last_view'] = ViewS.fresh('none')
+
+
+def _int_write(ex, frame, e, base=None):
+    ex.eval_args(e, frame)
+    g = ex.st.ghost
+    ex.oblige(f'{ex.c.name}/write_response/before_the_read', _t(g['read']) == 0)
+    g['written'] = VInt(_t(g['written']) + 1)
+    return VNone()
+
+
+def _int_read(ex, frame, e, base=None):
+    args, kw = ex.eval_args(e, frame)
+    g = ex.st.ghost
+    ex.oblige(f'{ex.c.name}/read_continuation/after_the_continuation_request', _t(g['written']) == 1)
+    _may_raise(ex, IO_RAISES)
+    g['read'] = VInt(_t(g['read']) + 1)
+    g['read_len'] = VInt(_t(args[0]))
+    v = ViewS.fresh('literal')
+    g['last_view'] = v
+    return v
+
+
+interrupt = Contract(
+    'C06', F, 'IMAPConnection._interrupt',
+    params=dict(self=CONN, state=StateS, interrupt=InterruptS, continuations=ListS(ViewS)), ghost_init=_int_ghost,
+    ensures=[('one_request_then_one_read_of_the_announced_length', lambda s: VBool(z3.And(
+        _t(s.ghost('written')) == 1, _t(s.ghost('read')) == 1,
+        _t(s.ghost('read_len')) == _t(s.wrap(s.interrupt.expected).literal_length)))),
+        ('the_bytes_read_are_appended_to_the_continuations', lambda s: VBool(z3.And(
+            _t(s.continuations.len) == _t(s.old.continuations.len) + 1,
+            _t(s.continuations[s.old.continuations.len]) == _t(s.ghost('last_view'))))),
+        ('earlier_continuations_untouched', lambda s: forall(lambda i: implies(
+            (i >= 0) & (i < s.old.continuations.len), VBool(_t(s.continuations[i]) == _t(s.old.continuations[i])))))],
+    raises={TypeError: [('nothing_written_or_read_for_an_unknown_request', lambda s: VBool(z3.And(
+        _t(s.ghost('written')) == 0, _t(s.ghost('read')) == 0)))]},
+    raises_only=(TypeError,) + IO_RAISES,
+    calls={'ResponseContinuation': _opaque('Continuation'), 'self.write_response': _int_write,
+           'self.read_continuation': _int_read},
+    modifies=['continuations'])
+CONTRACTS_READ = [interrupt]
+
+
+def _rc_ghost(st, sc):
+    g = st.ghost
+    g['interrupts'] = VInt(z3.IntVal(0))
+    g['parses'] = VInt(z3.IntVal(0))
+    g['ps_len'] = VInt(z3.IntVal(-1))
+    g['line'] = BytesS.fresh('noline')
+    g['parsed_cmd'] = CmdS.fresh('nocmd')
+
+
+def _rc_readline(ex, frame, e, base=None):
+    _may_raise(ex, IO_RAISES)
+    ln = BytesS.fresh('line')
+    ex.st.ghost['line'] = ln
+    return ln
+
+
+def _rc_parsing_state(ex, frame, e, base=None):
+    args, kw = ex.eval_args(e, frame)
+    conts = kw['continuations']
+    ex.st.ghost['ps_len'] = VInt(_t(conts.len))
+    return RefS('ParsingState').fresh('pstate')
+
+
+def _rc_parse(ex, frame, e, base=None):
+    args, kw = ex.eval_args(e, frame)
+    g = ex.st.ghost
+    ex.oblige(f'{ex.c.name}/parse/always_the_line_that_was_read', _t(args[0]) == _t(g['line']))
+    ex.oblige(f'{ex.c.name}/parse/with_every_continuation_read_so_far', _t(g['ps_len']) == _t(g['interrupts']))
+    g['parses'] = VInt(_t(g['parses']) + 1)
+    if ex.choose(2) == 1:
+        raise PyRaise(ParsingInterrupt)
+    cmd = CmdS.fresh('cmd')
+    g['parsed_cmd'] = cmd
+    return VTuple([cmd, BytesS.fresh('rest')])
+
+
+def _rc_interrupt(ex, frame, e, base=None):
+    """self._interrupt through its proved contract: one more continuation at the end of the list, or an exception"""
+    args, kw = ex.eval_args(e, frame)
+    _may_raise(ex, (TypeError,) + IO_RAISES)
+    g = ex.st.ghost
+    g['interrupts'] = VInt(_t(g['interrupts']) + 1)
+    conts = frame.env['conts']
+    from pyvc.engine import Alias
+    cur = ex.st.read(conts.loc) if isinstance(conts, Alias) else conts
+    new = cur.append(ViewS.fresh('literal'))
+    if isinstance(conts, Alias):
+        ex.st.write(conts.loc, new)
+    elif getattr(cur, 'loc', None) is not None:
+        ex.st.write(cur.loc, new)
+    else:
+        frame.env['conts'] = new
+    return VNone()
+
+
+_rc_inv = [('one_continuation_per_interrupt', lambda s: VBool(z3.And(
+    _t(s.conts.len) == _t(s.ghost('interrupts')), _t(s.ghost('parses')) == _t(s.ghost('interrupts')),
+    _t(s.ghost('interrupts')) >= 0)))]
+
+read_command = Contract(
+    'C06', F, 'IMAPConnection.read_command', params=dict(self=CONN, state=StateS), returns=CmdS, ghost_init=_rc_ghost,
+    typemap={'memoryview': ViewS},
+    ensures=[('returns_the_command_of_the_parse_that_completed', lambda s: VBool(_t(s.result) == _t(s.ghost('parsed_cmd')))),
+             ('one_parse_per_interrupt_plus_the_final_one', lambda s: VBool(
+                 _t(s.ghost('parses')) == _t(s.ghost('interrupts')) + 1))],
+    raises_only=(TypeError,) + IO_RAISES,
+    loops={0: Loop(invariant=_rc_inv, ghost=['interrupts', 'parses', 'ps_len', 'parsed_cmd'])},
+    calls={'self.readline': _rc_readline, 'ParsingState': _rc_parsing_state, 'self.params.copy': _opaque('Params'),
+           'self.commands.parse': _rc_parse, 'self._interrupt': _rc_interrupt},
+    note='Commands.parse: only ParsingInterrupt escapes it (contracts/total.py); _interrupt through its contract')
+CONTRACTS_READ = [interrupt, read_command]
